@@ -42,7 +42,9 @@ SIG = "src/y0/algorithm/separation/sigma_separation.py"
 GR = "src/y0/graph.py"
 LAT = "src/y0/algorithm/simplify_latent.py"
 
-GROUP_RUN = {"ci": ["C04", "C15"], "sigma": ["C20"], "graph": ["C14"], "latent": ["C16"]}
+GROUP_RUN = {"ci": ["C04", "C15"], "sigma": ["C20"], "graph": ["C14"], "latent": ["C16"], "sepG": []}
+DSL = "src/y0/dsl.py"
+PARSER = "src/y0/parser/internal.py"
 EQ, OUT = "equivalent", "outside-property"
 
 
@@ -115,7 +117,7 @@ MUTANTS = [
       "max instead of min: with return_all=True the largest separating set is kept", run=["C15"]),
     M("c02", "ci", CI, "    judgements = sorted(judgements, key=_judgement_grouper)\n", "    judgements = list(judgements)\n", OUT,
       "groupby without sorting: d_separations already yields the judgements of one pair consecutively; only minimal() on an arbitrary list differs", run=["C15"]),
-    M("c03", "ci", CI, "    return judgement.left, judgement.right\n", "    return judgement.left, judgement.left\n", ["C15"],
+    M("c03", "ci", CI, "    return str(judgement.left), str(judgement.right)\n", "    return str(judgement.left), str(judgement.left)\n", ["C15"],
       "stale field: judgements are grouped by their left node only, one pair per left node survives", run=["C15"]),
     M("c04", "ci", CI, "    return (\n        len(judgement.conditions),\n        sum(order.index(v) for v in judgement.conditions),\n    )\n",
       "    return (\n        sum(order.index(v) for v in judgement.conditions),\n        len(judgement.conditions),\n    )\n", ["C15"],
@@ -141,7 +143,7 @@ MUTANTS = [
       "missing set(): duplicates of the iterable stay in the record (create() called directly; are_d_separated hands over a set)"),
     M("s04", "ci", ST, "        conditions = tuple(sorted(set(conditions), key=str))\n", "        conditions = tuple(set(conditions))\n", ["C04", "C15"],
       "sorted vs unsorted: hash order of the set leaks into the record"),
-    M("s05", "ci", ST, "            self.left < self.right\n", "            self.left <= self.right\n", ["C04"],
+    M("s05", "ci", ST, "            str(self.left) < str(self.right)\n", "            str(self.left) <= str(self.right)\n", ["C04"],
       "< vs <=: a record with left == right counts as canonical"),
     M("s07", "ci", ST, "        separated: bool = True,\n    ) -> DSeparationJudgement:\n", "        separated: bool = False,\n    ) -> DSeparationJudgement:\n", OUT,
       "changed default of create(): every caller named by the property passes `separated` explicitly"),
@@ -429,6 +431,147 @@ MUTANTS = [
       "rule 3 reports but does not remove: single-child exogenous latents stay, projection unchanged"),
     M("k43", "latent", LAT, "    lv_dag = NxMixedGraph.to_latent_variable_dag(graph, tag=tag)\n    if latents is not None:\n", "    lv_dag = NxMixedGraph.to_latent_variable_dag(graph, tag=tag)\n    if latents:\n", EQ,
       "truthiness vs `is not None`: an empty collection marks nothing either way; a one-shot iterable is truthy"),
+
+    # =============================================================== group sepG: mutants aimed at exactly the shapes that the
+    # generator extension of round 5 added (deep collider descendants / ancestral depth, fully conditioned districts, large
+    # separators, name kinds, integer cut-offs, the strongly-connected-component rule with non-adjacent endpoints, aliasing of
+    # returned graphs, counterfactual-variable nodes, duplicates, tag values, parser-table names, DSL operators).
+    #     python3 tools/mutants_A.py --repo /work/sepG/repo --group sepG --json tools/mutants_G.last.json --md tools/mutants_G.md
+    M("u01", "sepG", CI, "    keep = graph.ancestors_inclusive(named)\n",
+      "    keep = set(named)\n    for _ in range(2):\n        keep |= {p for n in keep for p in graph.directed.predecessors(n)}\n", ["C04", "C15"],
+      "ancestral set truncated at depth 2 (parents and grandparents of the named nodes): a collider opened by a conditioned descendant three or more steps below, "
+      "or a common ancestor three steps above both endpoints, is lost (the emulated mutant of gap review G04-1: 0 verdicts changed before the structured shapes)", run=["C04", "C15"]),
+    M("u02", "sepG", CI, "    keep = graph.ancestors_inclusive(named)\n",
+      "    keep = set(named)\n    for _ in range(3):\n        keep |= {p for n in keep for p in graph.directed.predecessors(n)}\n", ["C04", "C15"],
+      "ancestral set truncated at depth 3: needs a descendant chain of four steps below a collider, or a fork four steps above both endpoints (>= 7 nodes)", run=["C04", "C15"]),
+    M("u03", "sepG", CI, "        clique = district | ancestral_graph.get_markov_pillow(district)\n",
+      "        clique = district | ancestral_graph.get_markov_pillow(district - conditions)\n", ["C04", "C15"],
+      "'conditioned members are deleted anyway': only the parents of the UNCONDITIONED members of a district join its clique, so private parents of different conditioned "
+      "members are not married (a -> m <-> n <- b given {m, n}; a variant of seeded/C04c that also hits partly conditioned districts). C15: unlike C04c a PARTLY conditioned "
+      "district is affected too, so pairs that no set separates get a judgement with a conditioned district member in it", run=["C04", "C15"]),
+    M("u04", "sepG", CI, "        stop = None if max_conditions is None else max_conditions + 1\n",
+      "        stop = 5 if max_conditions is None else min(max_conditions + 1, 5)\n", ["C15"],
+      "size cap: conditioning sets of five or more nodes are never tried (pairs whose minimum separator has size >= 5: five or six parallel routes)", run=["C15"]),
+    M("u05", "sepG", ST, "        left, right = sorted([left, right], key=str)\n", "        left, right = sorted([left, right], key=lambda v: (len(str(v)), str(v)))\n", ["C04", "C15"],
+      "shorter name first: with equal-length names (A00..A99) this IS the string order; with names of different lengths (X10 vs X2, a vs B1, counterfactual nodes) the record is not canonical", run=["C04", "C15"]),
+    M("v01", "sepG", SIG, "        for path in nx.all_simple_paths(graph.disorient(), left, right, cutoff=cutoff)\n",
+      "        for path in nx.all_simple_paths(graph.disorient(), left, right, cutoff=cutoff and min(cutoff, 4))\n", ["C20"],
+      "an explicit integer cut-off is capped at 4: with cutoff >= n-1 the verdict must be the unbounded one, connecting paths of five or more edges are lost (cutoff omitted / None unaffected)", run=["C20"]),
+    M("v02", "sepG", SIG, "        for path in nx.all_simple_paths(graph.disorient(), left, right, cutoff=cutoff)\n",
+      "        for path in nx.all_simple_paths(graph.disorient(), left, right, cutoff=cutoff and cutoff - 1)\n", ["C20"],
+      "off by one in an explicit cut-off (read as a number of NODES): with cutoff = n-1 a connecting path through every node of the graph is lost", run=["C20"]),
+    M("v03", "sepG", SIG, "        and (middle not in conditions or middle in conditions.intersection(sigma[right]))\n",
+      "        and (middle not in conditions or middle in conditions.intersection(sigma[left]))\n", ["C20"],
+      "stale index in the right chain: the class of the node the route comes FROM instead of the node it goes to; unchanged on acyclic graphs (singleton classes), on a cycle "
+      "a conditioned node where the route LEAVES the component is open in one reading direction only (asymmetric); needs non-adjacent endpoints around a cycle", run=["C20"]),
+    M("v04", "sepG", SIG, "        and bool(graph.descendants_inclusive(middle) & conditions)\n",
+      "        and bool(({middle} | set(graph.directed.successors(middle))) & conditions)\n", ["C20"],
+      "descendants replaced by children: a collider whose nearest conditioned descendant is two or more steps below stays closed (cf. seeded/C20d)", run=["C20"]),
+    M("v05", "sepG", SIG, "    d = middle in conditions.intersection(sigma[left]).intersection(sigma[right])\n",
+      "    d = middle in conditions.intersection(sigma[left])\n", ["C20"],
+      "dropped operand in the fork: a conditioned fork node in the component of its LEFT child only is open, i.e. open in one reading direction (asymmetric): a conditioned "
+      "cycle node with one child on the cycle and one child outside its component, non-adjacent endpoints", run=["C20"]),
+    # ---------- C12 (print / parse round trip): the parser's name table, operators used to build, long comma lists
+    # ---- the parser's name table (G12.2)
+    M("q01", "sepG", PARSER, "        LOCALS[name_underscored] = Variable(name_underscored)\n",
+      "        LOCALS[name_underscored] = Variable(name if name_underscored == \"K_7\" else name_underscored)\n", ["C12"],
+      "ONE name of the parser's table is bound to the wrong variable: `K_7` reads as Variable('K7'). Never drawn by the old COMMON / EXOTIC lists", run=["C12"]),
+    M("q02", "sepG", PARSER, "    if letter in {\"P\", \"Q\"}:\n", "    if letter in {\"P\", \"Q\", \"V\"}:\n", ["C12"],
+      "one LETTER is missing from the parser's table: every printed text with V, V0..V9, V_0..V_9 raises NameError (V was one of the 10 letters never drawn)", run=["C12"]),
+    M("q03", "sepG", PARSER, "        name = f\"{letter}{index}\"\n", "        name = f\"{letter}{index}\" if (letter, index) != (\"Pi\", 3) else \"Pi_3\"\n", ["C12"],
+      "the slot of `Pi3` is filled with Variable('Pi_3') (and `Pi3` is missing): Pi<d> forms were only ever used as populations π1 / π2 / Pi1", run=["C12"]),
+    # ---- operators used to BUILD an expression (G12.1)
+    M("q04", "sepG", DSL, "        return self._new(self.distribution.intervene(variables))\n",
+      "        return self._new(self.distribution.uncondition().intervene(variables))\n", ["C12"],
+      "Probability.intervene (`P(Y | Z) @ X`) loses the conditional bar: the parents are appended to the children, UNSORTED, so the built object is not in the "
+      "builders' normal form; it prints `P[X](Y, Z)` / `P[X](Z, Y)` and the text parses to the sorted object: object-equality clause fails for `P(Z | Y) @ X`", run=["C12"]),
+    M("q05", "sepG", DSL, "        return self._new(self.distribution.intervene(variables))\n",
+      "        return Probability(self.distribution.intervene(variables))\n", OUT,
+      "Probability.intervene drops the population: `PP[π1](Y) @ X` builds P[X](Y). The object is a well-formed Probability and round-trips; only the "
+      "correspondence stream `built` (model of `@` on a PopulationProbability keeps the population) notices", run=["C12"]),
+    M("q06", "sepG", DSL, "    def __neg__(self) -> CounterfactualVariable:\n        return self._with_star(False)\n",
+      "    def __neg__(self) -> CounterfactualVariable:\n        return Variable.__neg__(self)\n", OUT,
+      "CounterfactualVariable.__neg__ drops the intervention subscripts: `-(Y @ X)` builds -Y. Well-formed object, round-trips; correspondence only", run=["C12"]),
+    M("q07", "sepG", DSL, "                parents=parents.children,  # don't think about this too hard\n",
+      "                parents=parents.children[:1],  # don't think about this too hard\n", OUT,
+      "Variable.given with a Distribution on the right (`A | B & C`, the documented idiom) keeps only the first parent. Well-formed object; correspondence only", run=["C12"]),
+    M("q08", "sepG", DSL, "        return self._intervention(not self.star)\n", "        return self._intervention(True)\n", OUT,
+      "Variable.invert on an already marked variable: `~+Y` stays +Y (unmarked and -Y unchanged). Well-formed object; correspondence only", run=["C12"]),
+    M("q09", "sepG", DSL, "            children=_upgrade_ordering((*self.children, *_upgrade_variables(children))),\n            parents=self.parents,\n",
+      "            children=_upgrade_ordering((*self.children, *_upgrade_variables(children))),\n", OUT,
+      "Distribution.joint (`(A | B) & C`, `&` applied to a conditional distribution) drops the parents. Well-formed object; correspondence only", run=["C12"]),
+    # ---- size caps (G12.3)
+    M("q10", "sepG", DSL, "        ranges = _list_to_y0(self._get_sorted_ranges())\n", "        ranges = _list_to_y0(self._get_sorted_ranges()[:4])\n", ["C12"],
+      "Sum.to_y0 prints at most four ranges: Sum[A, B, C, D, E](..) loses E (the old generator stopped at three ranges)", run=["C12"]),
+    M("q11", "sepG", DSL, "            for intervention in _sort_interventions(interventions)\n        )\n        return f\"P[{intervention_str}]",
+      "            for intervention in _sort_interventions(interventions)[:4]\n        )\n        return f\"P[{intervention_str}]", ["C12"],
+      "Probability.to_y0 prints at most four subscripts in the level-2 form P[..](..): a fifth common intervention disappears", run=["C12"]),
+    M("q12", "sepG", DSL, "    return \", \".join(element.to_y0() for element in elements)\n",
+      "    return \", \".join(element.to_y0() for element in tuple(elements)[:5])\n", ["C12"],
+      "_list_to_y0 prints at most five elements: the sixth child (or range / parent) of a long comma list disappears (the old generator: <= 3 children, <= 2 parents)", run=["C12"]),
+    # ---------- C14 (receivers with counterfactual nodes, aliasing of returned graphs, duplicates, foreign interventions, deep chains) and C16 (tag values, foreign latents, colliding prefix)
+    # =============================================================== C14: aliasing, counterfactual nodes, duplicates, foreign interventions
+    M("r01", "sepG", GR, "            directed=self.directed.copy(),\n            undirected=self.undirected.copy(),\n",
+      "            directed=self.directed.copy(),\n            undirected=self.undirected,\n", ["C14"],
+      "aliasing: copy() shares the bidirected component with the receiver (nothing is modified during the call)", run=["C14"]),
+    M("r02", "sepG", GR, "        rv = NxMixedGraph(directed=self.directed.copy(), undirected=self.undirected.copy())\n",
+      "        rv = NxMixedGraph(directed=self.directed, undirected=self.undirected.copy())\n", ["C14"],
+      "aliasing: moralize() shares the DIRECTED component (the moral links only touch the copy of the bidirected part, so the receiver "
+      "is unchanged by the call itself)", run=["C14"]),
+    M("r03", "sepG", GR, "        return self.from_edges(\n            nodes=self.nodes(),\n            directed=_exclude_source(self.directed, vertices),\n            undirected=self.undirected.edges(),\n        )\n",
+      "        rv = self.from_edges(\n            nodes=self.nodes(),\n            directed=_exclude_source(self.directed, vertices),\n            undirected=[],\n        )\n        rv.undirected = self.undirected\n        return rv\n", ["C14"],
+      "aliasing: remove_out_edges hands the receiver's bidirected graph object to the result ('it is unchanged anyway')", run=["C14"]),
+    M("r04", "sepG", GR, "        n = Variable.norm(n)\n        self.directed.add_node(n)\n",
+      "        n = Variable.norm(n).get_base()\n        self.directed.add_node(n)\n", ["C14"],
+      "add_node normalises a counterfactual node to its base variable: edge-less counterfactual nodes of every rebuilt graph turn into plain ones", run=["C14"]),
+    M("r05", "sepG", GR, "        self.directed.add_edge(u, v, **attr)\n",
+      "        u, v = u.get_base(), v.get_base()\n        self.directed.add_edge(u, v, **attr)\n", ["C14"],
+      "add_directed_edge normalises counterfactual endpoints to their base variables (two worlds of one variable are merged)", run=["C14"]),
+    M("r06", "sepG", GR, "    rv = {vertices} if isinstance(vertices, Variable) else set(vertices)\n",
+      "    rv = {vertices} if isinstance(vertices, Variable) else set(vertices)\n    if isinstance(vertices, list | tuple) and len(vertices) != len(rv):\n        raise ValueError(\"duplicate vertices\")\n", ["C14"],
+      "defensive check that rejects a node collection naming an element twice (the parameter is Iterable[Variable])", run=["C14"]),
+    M("r07", "sepG", GR, "        for node in nodes:\n            parents_of_district |= set(self.directed.predecessors(node))\n",
+      "        seen: set[Variable] = set()\n        for node in nodes:\n            if node in seen:\n                break\n            seen.add(node)\n            parents_of_district |= set(self.directed.predecessors(node))\n", ["C14"],
+      "get_markov_pillow stops at the first repeated node of the collection", run=["C14"]),
+    M("r08", "sepG", GR, "        return self.from_edges(\n            nodes=[node.intervene(variables) for node in self.nodes()],\n",
+      "        variables = {v for v in variables if Variable(v.name) in self.directed}\n        return self.from_edges(\n            nodes=[node.intervene(variables) for node in self.nodes()],\n", ["C14"],
+      "intervene drops interventions on variables that are not nodes of the graph (subscripts lost; ValueError when none is left)", run=["C14"]),
+    M("r09", "sepG", GR, "    return (+node not in interventions) and (-node not in interventions)\n",
+      "    if any(i.name == node.name for i in interventions) and len({i.name for i in interventions}) != len(interventions):\n        return True\n    return (+node not in interventions) and (-node not in interventions)\n", ["C14"],
+      "intervene with +X and -X of one variable keeps the edges into X (X is intervened whatever the sign: 'edges into the intervened nodes removed')", run=["C14"]),
+    M("r10", "sepG", GR, "    if any(isinstance(v, Intervention) for v in rv):\n",
+      "    if any(isinstance(v, Intervention | CounterfactualVariable) for v in rv):\n", ["C14"],
+      "_ensure_set rejects counterfactual variables as well: subgraph / ancestors_inclusive ... of a counterfactual graph (what id_star does) raise", run=["C14"]),
+    M("r11", "sepG", GR, "            undirected=_include_adjacent(self.undirected, vertices),\n",
+      "            undirected=[(u, v) for u, v in _include_adjacent(self.undirected, vertices) if u != v],\n", ["C14"],
+      "subgraph loses bidirected self-loops", run=["C14"]),
+    M("r12", "sepG", GR, "        itt.chain.from_iterable(nx.algorithms.dag.ancestors(graph, source) for source in sources)\n",
+      "        itt.chain.from_iterable(\n            nx.single_source_shortest_path_length(graph.reverse(copy=False), source, cutoff=5)\n            for source in sources\n        )\n", ["C14"],
+      "ancestors_inclusive by a bounded search: ancestors more than 5 edges away are lost", run=["C14"]),
+    # =============================================================== C16: tag values, foreign latents, colliding prefix, mixed names
+    M("t01", "sepG", LAT, "        if graph.nodes[node][tag]:\n", "        if graph.nodes[node][tag] is True:\n", ["C16"],
+      "iter_latents recognises a latent only by the bool True: nodes tagged 1 / numpy.True_ are treated as observed by every rule", run=["C16"]),
+    M("t02", "sepG", GR, "            if not data[tag]:\n", "            if data[tag] is False:\n", ["C16"],
+      "from_latent_variable_dag adds an edge-less observed node only when its tag is the bool False (0 / None / numpy.False_ are lost)", run=["C16"]),
+    M("t03", "sepG", GR, "            if data[tag]:\n                for a, b in itt.combinations", "            if data[tag] is True:\n                for a, b in itt.combinations", ["C16"],
+      "from_latent_variable_dag treats a latent tagged 1 / numpy.True_ as observed: directed edges out of a node that is not in the graph", run=["C16"]),
+    M("t04", "sepG", LAT, "        for node, data in lv_dag.nodes(data=True):\n            if node in latents:\n                data[tag] = True\n",
+      "        for node in latents:\n            lv_dag.nodes[node][tag] = True\n", ["C16"],
+      "evans_simplify marks the named latents by lookup: KeyError for a name that is not a node (the documented behaviour is to ignore it)", run=["C16"]),
+    M("t05", "sepG", LAT, "        for node, data in lv_dag.nodes(data=True):\n            if node in latents:\n                data[tag] = True\n",
+      "        for node in latents:\n            lv_dag.add_node(node, **{tag: True})\n", "equivalent",
+      "evans_simplify ADDS a latent for every named variable that is not a node: a childless latent, removed again by rule 2", run=["C16"]),
+    M("t06", "sepG", GR, "        latent_node = next(name for name in latent_names if name not in rv)\n",
+      "        latent_node = next(name for name in latent_names if name not in rv or prefix != DEFULT_PREFIX)\n", ["C16"],
+      "the skip-taken-names loop only works for the default prefix: with a custom prefix / start that runs into node names an observed node is overwritten by a latent", run=["C16"]),
+    M("t07", "sepG", GR, "    if prefix is None:\n        prefix = DEFULT_PREFIX\n", "    if not prefix:\n        prefix = DEFULT_PREFIX\n", "outside-property",
+      "the empty prefix is replaced by the default one: only the NAMES of the generated latents change (round trip still exact); seen by the correspondence alone", run=["C16"]),
+    M("t08", "sepG", LAT, "        if left_children == right_children and left > right:\n",
+      "        if left_children == right_children and (len(left.name), left.name) > (len(right.name), right.name):\n", "outside-property",
+      "rule 4 keeps the shorter name instead of the lower sort order: another representative of equal latents; identical on names of one length (A00..A15), differs on the mixed-name stream only; correspondence alone", run=["C16"]),
+    M("t09", "sepG", GR, "    latent_names = (Variable(f\"{prefix}{i}\") for i in itt.count(start))\n",
+      "    latent_names = (Variable(f\"{prefix}{i}\") for i in itt.count(max(start, 0)))\n", "outside-property",
+      "a negative start is clamped to 0: names of generated latents only; correspondence alone", run=["C16"]),
 ]
 
 
@@ -631,10 +774,13 @@ def summarise(results):
     return out
 
 
+MD_TITLE = None        # --title: heading of the report of another group (the 'what the campaign changed' text of campaign A is then left out)
+
+
 def write_md(path, results, before=None, suite=None):
     suite = suite or {}
-    props = ["C04", "C15", "C20", "C14", "C16"]
-    lines = ["# Mutation campaign A (C04, C15, C20, C14, C16)", "",
+    props = ["C04", "C15", "C20", "C14", "C16", "C12"]
+    lines = [MD_TITLE or "# Mutation campaign A (C04, C15, C20, C14, C16)", "",
              "Generated by `tools/mutants_A.py` (plain quick tier, `VERIF_NO_ESCALATE=1`, seed 0). One hand-written one-site mutant of y0 at a",
              "time in a scratch clone; `breaking` = the mutant violates the statement of the property, `not breaking` = equivalent or",
              "outside the property (see the `why` of each mutant in the tool).", ""]
@@ -661,7 +807,7 @@ def write_md(path, results, before=None, suite=None):
         table(f"After ({len(results)} mutants: 10 were added after round 1)", summarise(results))
     else:
         table("Result", summarise(results))
-    lines += FIXES
+    lines += [] if MD_TITLE else FIXES
     bmap0 = {(rec["id"], run["prop"]): classify(rec, run) for rec in before or [] for run in rec.get("runs", [])}
     fixed = [(rec, run) for rec in results for run in rec.get("runs", [])
              if classify(rec, run) == "caught with replay" and bmap0.get((rec["id"], run["prop"]), "caught with replay") != "caught with replay"]
@@ -729,11 +875,14 @@ def main():
     ap.add_argument("--before", default=None, help="result file of the run before the fixes (for the before/after table)")
     ap.add_argument("--merge", default=None, help="existing result file: re-run only the selected mutants, keep the other records")
     ap.add_argument("--verify", action="store_true")
+    ap.add_argument("--title", default=None, help="heading line of the --md report (default: campaign A)")
     ap.add_argument("--render", action="store_true", help="only rewrite --md from the results in --json (and --before, suite file)")
     ap.add_argument("--suite", default=None, metavar="FILE",
                     help="instead of the checks run the pinned test suite (tools/baseline.py) on each selected mutant; results merged into FILE")
     ap.add_argument("--not-caught-in", default=None, metavar="RESULTS", help="select the mutants that RESULTS does not show caught with a replay by every check that ran")
     args = ap.parse_args()
+    global MD_TITLE
+    MD_TITLE = args.title
     args.repo = Path(args.repo).resolve()
     if args.repo == Path("/repo"):
         sys.exit("refusing to use /repo")
